@@ -415,6 +415,108 @@ def _euclid_inductive(fn, loop, EInterp, mk_hooks, A, B, check):
         if bad:
             raise AnalysisError(f"from a state satisfying the invariant the "
                                 f"function returns {bad}")
+    return rels, generic, one_round, after
+
+
+def euclid_gcd_rule(fn):
+    """g is a *greatest* common divisor: (1) one round maps the pair (q, r) to
+    a pair that is a unimodular combination of it (determinant +-1 over the
+    ring extended by the quotient), so the ideal (q, r) never changes; (2) the
+    loop is `while r:`, left only with r == 0, where the ideal is (q); (3) what
+    is returned as g is that q, up to a unit.  With Bezout's identity (g is in
+    the ideal of the inputs) this makes g a gcd.  -> None | reason string"""
+    loops = [st for st in fn.body if isinstance(st, ast.While)]
+    if len(loops) != 1:
+        return "loop not at the top level"
+    loop = loops[0]
+    params = [a.arg for a in fn.args.args]
+    if not (isinstance(loop.test, ast.Name) and loop.test.id in params):
+        return f"the loop test '{ast.unparse(loop.test)}' is not the second " \
+               "operand itself"
+    qn, rn = params[0], loop.test.id
+    if qn == rn:
+        qn = params[1]
+    Sq, Sr = Poly.sym("Sq"), Poly.sym("Sr")
+    counter = [0]
+
+    def divmod_(it, node, args, kw):
+        counter[0] += 1
+        d = Poly.sym(f"D{counter[0]}")
+        return (d, Poly.lift(args[0]) - d * Poly.lift(args[1]))
+    it = Interp(calls={"divmod": divmod_})
+    env = {qn: Sq, rn: Sr}
+    # other loop-carried variables (the cofactor rows) do not matter here
+    for st in fn.body[:fn.body.index(loop)]:
+        if isinstance(st, ast.Assign) and all(isinstance(t, ast.Name)
+                                              for t in st.targets):
+            try:
+                it.stmt(st, env)
+            except AnalysisError:
+                pass
+    env[qn], env[rn] = Sq, Sr
+    try:
+        it.block(loop.body, env)
+    except AnalysisError as e:
+        return f"one round could not be interpreted: {e}"
+    q1, r1 = Poly.lift(env[qn]), Poly.lift(env[rn])
+
+    def coeffs(p_):
+        a = Poly({tuple(x for x in m if x[0] != "Sq"): c for m, c in p_.t.items()
+                  if dict(m).get("Sq") == 1 and "Sr" not in dict(m)})
+        b = Poly({tuple(x for x in m if x[0] != "Sr"): c for m, c in p_.t.items()
+                  if dict(m).get("Sr") == 1 and "Sq" not in dict(m)})
+        if a * Sq + b * Sr != p_:
+            raise AnalysisError("not linear in the pair")
+        return a, b
+    try:
+        a, b = coeffs(q1)
+        c, d = coeffs(r1)
+    except AnalysisError:
+        return "one round does not map (q, r) to linear combinations of q and r"
+    det = a * d - b * c
+    if not (det.is_const() and det.const_value() in (1, -1)):
+        return (f"one round maps (q, r) to ({q1}, {r1}): determinant {det}, not "
+                "+-1, so the common divisors of the pair change")
+    # what is returned after the loop
+    post = fn.body[fn.body.index(loop) + 1:]
+    from .absint import _Return
+    env2 = dict(env)
+    env2[qn], env2[rn] = Sq, 0
+
+    def run(decider):
+        class E2(Interp):
+            def call(self, e, env_):
+                fname = ast.unparse(e.func)
+                if fname in self.calls:
+                    return super().call(e, env_)
+                return Poly.sym("u[" + ast.unparse(e) + "]")
+        it2 = E2(calls={"<binop>": lambda it_, n_, op, X, Y: X * (Y ** -1)
+                        if isinstance(op, (ast.FloorDiv, ast.Div))
+                        and len(Y.t) == 1 else (_ for _ in ()).throw(
+                            AnalysisError("ring operation"))},
+                 decide=lambda it_, n_, v: decider(ast.unparse(n_)),
+                 attrs=lambda it_, n_, b_, at: Opaque(ast.unparse(n_)))
+        e = dict(env2)
+        try:
+            it2.block(post, e)
+        except _Return as r:
+            return r.value
+        return None
+    for _, res in explore(run):
+        if not (isinstance(res, tuple) and res):
+            return f"returns {res!r}"
+        g = Poly.lift(res[0])
+        ratio_ok = False
+        if len(g.t) == 1:
+            (m, c_), = g.t.items()
+            d_ = dict(m)
+            if d_.get("Sq") == 1 and abs(c_) == 1 and all(
+                    s_.startswith("u[") for s_ in d_ if s_ != "Sq"):
+                ratio_ok = True
+        if not ratio_ok:
+            return f"what is returned as g ({g}) is not the last non-zero " \
+                   "remainder up to a unit"
+    return None
 
 
 # ---------------------------------------------------------------------------
@@ -433,7 +535,12 @@ def horner_value(exps):
     return tot
 
 
-def horner_numeric_rule(fn, consts=None):
+DEEP_EXPONENT_SHAPES = EXPONENT_SHAPES + [
+    (2,), (0, 5), (3, 4), (1, 2, 3), (0, 2, 4, 6), (1, 3, 5, 7, 9), (0, 1, 2, 3, 4),
+    (5, 6), (0, 10), (2, 3, 11)]
+
+
+def horner_numeric_rule(fn, consts=None, shapes=None):
     """EvaluationMapper.map_polynomial: the value returned for data
     ((e_i, C_i)) and base B is sum C_i * B**e_i, on every exponent shape."""
     params = [a.arg for a in fn.args.args]
@@ -441,7 +548,7 @@ def horner_numeric_rule(fn, consts=None):
         raise AnalysisError(f"{fn.name}: signature")
     me, node = params[0], params[1]
     wit = []
-    for exps in EXPONENT_SHAPES:
+    for exps in (shapes or EXPONENT_SHAPES):
         # coefficients are expression nodes: only rec() turns them into values
         data = tuple((e, Opaque(f"C{i}")) for i, e in enumerate(exps))
 
@@ -512,13 +619,13 @@ def _poly_of_source(src):
     return ev(tree)
 
 
-def horner_text_rule(fn, consts, precs=(0, 100)):
+def horner_text_rule(fn, consts, precs=(0, 100), shapes=None):
     """CompileMapper.map_polynomial: the *text* produced for data ((e_i, C_i))
     and base B, read as Python source, denotes sum C_i * B**e_i."""
     params = [a.arg for a in fn.args.args]
     me, node = params[0], params[1]
     wit = []
-    for exps in EXPONENT_SHAPES:
+    for exps in (shapes or EXPONENT_SHAPES):
         data = tuple((e, Opaque(f"C{i}")) for i, e in enumerate(exps))
 
         def attrs(it, n_, base, attr):
@@ -554,7 +661,7 @@ def horner_text_rule(fn, consts, precs=(0, 100)):
 # Polynomial's own arithmetic
 # ---------------------------------------------------------------------------
 
-def polynomial_arith_rule(model):
+def polynomial_arith_rule(model, deep=False):
     """Interpret Polynomial's operator methods on abstract instances over one
     base, with symbolic coefficients and concrete exponent lists, and compare
     the *value* (sum coeff * B**exp) of the result with the operation on the
@@ -674,6 +781,8 @@ def polynomial_arith_rule(model):
                       max_steps=200000)
 
     shapes = [(), (0,), (2,), (0, 1), (1, 3), (0, 2, 5)]
+    if deep:
+        shapes += [(1,), (0, 1, 2), (1, 2, 4), (0, 3), (2, 3, 7), (0, 1, 2, 3)]
     wit = []
     n = 0
 
@@ -774,3 +883,306 @@ def polynomial_arith_rule(model):
     run("p - p", lambda: new_interp().call_method(c, "__sub__", [c], None),
         Poly())
     return wit, n
+
+
+# ---------------------------------------------------------------------------
+# FFT against the discrete Fourier transform's definition
+# ---------------------------------------------------------------------------
+
+from .absint import Native, StepBound  # noqa: E402
+
+
+class Vec(Native):
+    """a vector of Polys with numpy's elementwise arithmetic"""
+
+    def __init__(self, items):
+        self.items = [Poly.lift(x) for x in items]
+
+    def __len__(self):
+        return len(self.items)
+
+    def __getitem__(self, i):
+        if isinstance(i, slice):
+            return Vec(self.items[i])
+        return self.items[i]
+
+    def _zip(self, o, f):
+        if isinstance(o, Vec):
+            if len(o) != len(self):
+                raise AnalysisError("vectors of different length combined")
+            return Vec([f(a, b) for a, b in zip(self.items, o.items)])
+        o = Poly.lift(o)
+        return Vec([f(a, o) for a in self.items])
+
+    def __mul__(self, o):
+        return self._zip(o, lambda a, b: a * b)
+
+    __rmul__ = __mul__
+
+    def __add__(self, o):
+        if isinstance(o, int) and o == 0:
+            return self
+        return self._zip(o, lambda a, b: a + b)
+
+    __radd__ = __add__
+
+    def __sub__(self, o):
+        return self._zip(o, lambda a, b: a - b)
+
+    def __neg__(self):
+        return Vec([-a for a in self.items])
+
+    def __truediv__(self, o):
+        return self._zip(o, lambda a, b: a * (Poly.lift(b) ** -1))
+
+    def __setitem__(self, i, v):
+        self.items[i] = Poly.lift(v)
+
+    def __repr__(self):
+        return f"Vec({self.items})"
+
+
+def _reduce_root(p, n):
+    """exponents of the root of unity w taken modulo n (w**n == 1)"""
+    out = Poly()
+    for m, c in p.t.items():
+        d = dict(m)
+        if "w" in d:
+            d["w"] %= n
+        mono = tuple(sorted((s, e) for s, e in d.items() if e != 0))
+        out = out + Poly({mono: c})
+    return out
+
+
+def fft_rule(model, lengths=range(1, 13), signs=(1, -1)):
+    """fft(x, sign) interpreted on a vector of symbols equals, entry by entry,
+    the transform's definition  F_k = sum_j x_j * z**(k*j),  z = exp(-2*pi*i*
+    sign/n) -- an identity in Z[x_j][w]/(w**n - 1), w = exp(2*pi*i/n).
+    ifft(y) equals (1/n) * the same sum with sign -1.
+    -> (witnesses, n_cases)"""
+    import math
+    _, fn = model.func("pymbolic.algorithm:fft")
+    _, ifn = model.func("pymbolic.algorithm:ifft")
+    _, ff = model.func("pymbolic.algorithm:find_factors")
+    wit = []
+    cases = 0
+    for n in lengths:
+        for sign in signs:
+            cases += 1
+            state = {"n": n}
+
+            def exp_(it, node, args, kw):
+                a = args[0]
+                if isinstance(a, Vec):
+                    return Vec([exp_(it, node, [x], kw) for x in a.items])
+                a = Poly.lift(a)
+                if not a.t:
+                    return Poly.const(1)
+                # a == r * (2*J*PI)  ->  w ** (r*n)
+                if len(a.t) != 1:
+                    raise AnalysisError(f"exp of {a}")
+                (m, c), = a.t.items()
+                if dict(m) != {"J": 1, "PI": 1}:
+                    raise AnalysisError(f"exp of {a}: not an angle")
+                k = c / 2 * state["n"]
+                if k.denominator != 1:
+                    raise AnalysisError(f"angle {c}*pi*i is not a multiple of "
+                                        f"2*pi/{state['n']}")
+                return Poly.sym("w") ** (int(k) % state["n"])
+
+            def arange(it, node, args, kw):
+                lo, hi = (args + [None])[:2] if len(args) > 1 else (0, args[0])
+                return Vec(list(range(lo, hi)))
+
+            def concat(it, node, args, kw):
+                out = []
+                for v in args[0]:
+                    out.extend(v.items if isinstance(v, Vec) else [v])
+                return Vec(out)
+
+            def sum_(it, node, args, kw):
+                tot = 0
+                for v in args[0]:
+                    tot = v + tot if isinstance(v, Vec) else tot + v
+                return tot
+
+            def rec_fft(it, node, args, kw):
+                env = {"pi": Poly.sym("PI")}
+                params = [a.arg for a in fn.args.args]
+                full = list(args) + [None] * (len(params) - len(args))
+                # defaults of positional parameters
+                d0 = len(params) - len(fn.args.defaults)
+                for i in range(len(args), len(params)):
+                    full[i] = it.eval(fn.args.defaults[i - d0], {})
+                for a_, dflt in zip(fn.args.kwonlyargs, fn.args.kw_defaults):
+                    env[a_.arg] = kw.get(a_.arg, it.eval(dflt, {})
+                                         if dflt is not None else None)
+                for k_, v_ in kw.items():
+                    if k_ in params:
+                        full[params.index(k_)] = v_
+                return it.call_function(fn, full, dict(env))
+
+            calls = {
+                "custom_np.exp": exp_, "custom_np.arange": arange,
+                "custom_np.concatenate": concat, "sum": sum_, "fft": rec_fft,
+                "custom_np.dtype": lambda it, n_, a, k: Opaque("dtype"),
+                "scalar_tp": lambda it, n_, a, k: a[0],
+                "sqrt": lambda it, n_, a, k: math.sqrt(a[0]),
+                "find_factors": lambda it, n_, a, k: it.call_function(
+                    ff, a, {}),
+                "len": lambda it, n_, a, k: len(a[0]),
+            }
+
+            def attrs(it, node, base, attr):
+                return Opaque(ast.unparse(node))
+            it = Interp(calls=calls, attrs=attrs, max_steps=400000)
+            x = Vec([Poly.sym(f"x{j}") for j in range(n)])
+            try:
+                got = rec_fft(it, None, [x, sign], {
+                    "complex_dtype": Opaque("complex"),
+                    "custom_np": Opaque("numpy")})
+            except Raised as r:
+                wit.append(f"fft of length {n}, sign {sign}: raises at line "
+                           f"{r.node.lineno}")
+                continue
+            except StepBound:
+                wit.append(f"fft of length {n}, sign {sign}: does not terminate "
+                           "(the recursion does not reach shorter vectors)")
+                continue
+            if not isinstance(got, Vec) or len(got) != n:
+                wit.append(f"fft of length {n}: returns {got!r}")
+                continue
+            for k in range(n):
+                want = Poly()
+                for j in range(n):
+                    want = want + Poly.sym(f"x{j}") * Poly.sym("w") ** (
+                        (-sign * k * j) % n)
+                if _reduce_root(got[k], n) != _reduce_root(want, n):
+                    wit.append(f"fft of length {n}, sign {sign}, entry {k}: "
+                               f"{_reduce_root(got[k], n)} instead of "
+                               f"{_reduce_root(want, n)}")
+                    break
+            if sign != 1:
+                continue
+            # ifft(y)_j = (1/n) sum_k y_k * w**(j*k)
+            cases += 1
+            it = Interp(calls=calls, attrs=attrs, max_steps=400000)
+            iparams = [a.arg for a in ifn.args.args]
+            ienv = {a_.arg: None for a_ in ifn.args.kwonlyargs}
+            ienv.update({"complex_dtype": Opaque("complex"),
+                         "custom_np": Opaque("numpy")})
+            try:
+                got = it.call_function(
+                    ifn, [x] + [None] * (len(iparams) - 1), ienv)
+            except Raised as r:
+                wit.append(f"ifft of length {n}: raises at line {r.node.lineno}")
+                continue
+            if not isinstance(got, Vec) or len(got) != n:
+                wit.append(f"ifft of length {n}: returns {got!r}")
+                continue
+            for j in range(n):
+                want = Poly()
+                for k in range(n):
+                    want = want + Poly.sym(f"x{k}") * Poly.sym("w") ** (
+                        (j * k) % n) * Fraction(1, n)
+                if _reduce_root(got[j], n) != _reduce_root(want, n):
+                    wit.append(f"ifft of length {n}, entry {j}: "
+                               f"{_reduce_root(got[j], n)} instead of "
+                               f"{_reduce_root(want, n)}")
+                    break
+    # the symbolic FFT: wrappers mean their child (C02), the identity-mapping
+    # clean-up pass preserves value (C04): under those two facts it is fft
+    _, sfn = model.func("pymbolic.algorithm:sym_fft")
+    for n in lengths:
+        for sign in signs:
+            cases += 1
+            state_n = n
+
+            def exp2(it, node, args, kw, _n=n):
+                a = args[0]
+                if isinstance(a, Vec):
+                    return Vec([exp2(it, node, [x_], kw) for x_ in a.items])
+                a = Poly.lift(a)
+                if not a.t:
+                    return Poly.const(1)
+                (m_, c_), = a.t.items() if len(a.t) == 1 else ((None, None),)
+                if m_ is None or dict(m_) != {"J": 1, "PI": 1}:
+                    raise AnalysisError(f"exp of {a}")
+                k_ = c_ / 2 * _n
+                if k_.denominator != 1:
+                    raise AnalysisError("angle is not a multiple of 2*pi/n")
+                return Poly.sym("w") ** (int(k_) % _n)
+
+            def rec_fft2(it, node, args, kw):
+                env = {"pi": Poly.sym("PI"),
+                       "custom_np": Opaque("numpy")}
+                params = [a.arg for a in fn.args.args]
+                full = list(args) + [None] * (len(params) - len(args))
+                d0 = len(params) - len(fn.args.defaults)
+                for i in range(len(args), len(params)):
+                    full[i] = it.eval(fn.args.defaults[i - d0], {})
+                for a_, dflt in zip(fn.args.kwonlyargs, fn.args.kw_defaults):
+                    env[a_.arg] = kw.get(a_.arg, it.eval(dflt, {})
+                                         if dflt is not None else None)
+                for k_, v_ in kw.items():
+                    if k_ in params:
+                        full[params.index(k_)] = v_
+                if env.get("complex_dtype") is None:
+                    env["complex_dtype"] = Opaque("complex")
+                if env.get("custom_np") is None:
+                    env["custom_np"] = Opaque("numpy")
+                return it.call_function(fn, full, env)
+            import math as _math
+            calls2 = {
+                "custom_np.exp": exp2,
+                "custom_np.arange": lambda it, n_, a, k: Vec(list(range(
+                    a[0], a[1])) if len(a) > 1 else list(range(a[0]))),
+                "custom_np.concatenate": lambda it, n_, a, k: Vec(
+                    [y for v in a[0] for y in (v.items if isinstance(v, Vec)
+                                               else [v])]),
+                "sum": lambda it, n_, a, k: _vsum(a[0]),
+                "fft": rec_fft2,
+                "custom_np.dtype": lambda it, n_, a, k: Opaque("dtype"),
+                "scalar_tp": lambda it, n_, a, k: a[0],
+                "sqrt": lambda it, n_, a, k: _math.sqrt(a[0]),
+                "find_factors": lambda it, n_, a, k: it.call_function(ff, a, {}),
+                "len": lambda it, n_, a, k: len(a[0]),
+                "warn": lambda it, n_, a, k: None,
+                "numpy.empty": lambda it, n_, a, k: Vec([0] * a[0]),
+                "CommonSubexpression": lambda it, n_, a, k: a[0],
+                "NearZeroKiller": lambda it, n_, a, k: Opaque("identity-mapper"),
+                "NearZeroKiller()": lambda it, n_, a, k: a[0],
+            }
+            it = Interp(calls=calls2, attrs=lambda it_, nd, b, at: Opaque(
+                ast.unparse(nd)), max_steps=400000)
+            x = Vec([Poly.sym(f"x{j}") for j in range(n)])
+            try:
+                got = it.call_function(sfn, [x, sign], {})
+            except Raised as r:
+                wit.append(f"sym_fft of length {n}: raises at line "
+                           f"{r.node.lineno}")
+                continue
+            except StepBound:
+                wit.append(f"sym_fft of length {n}: does not terminate")
+                continue
+            if not isinstance(got, Vec) or len(got) != n:
+                wit.append(f"sym_fft of length {n}: returns {got!r}")
+                continue
+            for k in range(n):
+                want = Poly()
+                for j in range(n):
+                    want = want + Poly.sym(f"x{j}") * Poly.sym("w") ** (
+                        (-sign * k * j) % n)
+                if _reduce_root(got[k], n) != _reduce_root(want, n):
+                    wit.append(f"sym_fft of length {n}, sign {sign}, entry {k}: "
+                               f"{_reduce_root(got[k], n)} instead of "
+                               f"{_reduce_root(want, n)}")
+                    break
+    return wit, cases
+
+
+def _vsum(seq):
+    tot = 0
+    for v in seq:
+        tot = v + tot if isinstance(v, Vec) else tot + v
+    return tot
